@@ -152,45 +152,9 @@ func init() {
 				return ""
 			}
 			seeds := 0
-			for _, fn := range p.Funcs {
-				if pk := funcPkg(fn); pk == nil || pk.Path() != formatterPkg {
-					continue
-				}
-				eachInstr(fn, func(in ssa.Instruction) {
-					ld, ok := in.(*ssa.UnOp)
-					if !ok || ld.Op != token.MUL {
-						return
-					}
-					fv := fieldVar(ld.X)
-					if fv == nil || !fieldIs(fv, "Data") || fv.Pkg() == nil || fv.Pkg().Path() != "golang.org/x/net/html" {
-						return
-					}
-					fa := ld.X.(*ssa.FieldAddr)
-					isText := false
-					for x := ld.Block(); x != nil && !isText; x = x.Idom() {
-						for _, ec := range append(allGuards(x), enteringConds(x)...) {
-							if ec.cond == nil {
-								continue
-							}
-							if b := eqOnEdge(ec.cond, ec.want); b != nil {
-								if k, ok := constInt(b.Y); ok && k == 1 {
-									if tl, ok := b.X.(*ssa.UnOp); ok {
-										if tfa, ok := tl.X.(*ssa.FieldAddr); ok && fieldName(tfa.X.Type(), tfa.Field) == "Type" && sameNodeValue(tfa.X, fa.X) {
-											isText = true
-										}
-									}
-								}
-							}
-						}
-					}
-					if isText {
-						seeds++
-						t.Seed(ld, "text Data loaded at "+p.instrPos(ld))
-						if os.Getenv("VUEGOCHECK_DEBUG") != "" {
-							fmt.Printf("DEBUG C19.R2 seed %s in %s block %d: %s\n", ld.Name(), shortName(fn), ld.Block().Index, p.instrPos(ld))
-						}
-					}
-				})
+			for _, ld := range p.formatterTextLoads() {
+				seeds++
+				t.Seed(ld, "text Data loaded at "+p.instrPos(ld))
 			}
 			t.Run()
 			c.check(seeds >= 3, "formatter reads text nodes", "-", fmt.Sprintf("%d text read(s) followed", seeds), "fewer text reads than expected")
@@ -198,23 +162,7 @@ func init() {
 				fn := h.At.Parent()
 				// accepted only in a function that is reached solely on the script/style branch: every call site is
 				// on that branch, or sits in a function that itself is reached solely on it (helpers of helpers)
-				var rawOnly func(f *ssa.Function, d int) bool
-				rawOnly = func(f *ssa.Function, d int) bool {
-					callers := p.Callers(f)
-					if len(callers) == 0 || d > 3 {
-						return false
-					}
-					for _, cs := range callers {
-						if r, _ := p.rawTextBranch(cs.Block()); r {
-							continue
-						}
-						if cs.Parent() == f || !rawOnly(cs.Parent(), d+1) {
-							return false
-						}
-					}
-					return true
-				}
-				okRaw := rawOnly(fn, 0)
+				okRaw := p.formatterRawOnly(fn, 0)
 				// … or a strings.Builder local to a raw-text function (content collected, then written)
 				c.check(okRaw, fmt.Sprintf("%s: raw text write#%d", shortName(fn), i+1), p.instrPos(h.At), "only reached for script/style elements", "text is written without the text escaper outside the script/style path: `&lt;b&gt;` in a template becomes a live <b> after formatting — "+shortWhy(h.Why))
 			}
@@ -700,4 +648,65 @@ func templateReads(src string) map[string]string {
 		walk(n, map[string]bool{})
 	}
 	return out
+}
+
+// formatterTextLoads: loads of Node.Data in the formatter package that are known to read a text node
+// (guarded by Type == TextNode of the same node).
+func (p *Prog) formatterTextLoads() []*ssa.UnOp {
+	var out []*ssa.UnOp
+	for _, fn := range p.Funcs {
+		if pk := funcPkg(fn); pk == nil || pk.Path() != formatterPkg {
+			continue
+		}
+		eachInstr(fn, func(in ssa.Instruction) {
+			ld, ok := in.(*ssa.UnOp)
+			if !ok || ld.Op != token.MUL {
+				return
+			}
+			fv := fieldVar(ld.X)
+			if fv == nil || !fieldIs(fv, "Data") || fv.Pkg() == nil || fv.Pkg().Path() != "golang.org/x/net/html" {
+				return
+			}
+			fa := ld.X.(*ssa.FieldAddr)
+			isText := false
+			for x := ld.Block(); x != nil && !isText; x = x.Idom() {
+				for _, ec := range append(allGuards(x), enteringConds(x)...) {
+					if ec.cond == nil {
+						continue
+					}
+					if b := eqOnEdge(ec.cond, ec.want); b != nil {
+						if k, ok := constInt(b.Y); ok && k == 1 {
+							if tl, ok := b.X.(*ssa.UnOp); ok {
+								if tfa, ok := tl.X.(*ssa.FieldAddr); ok && fieldName(tfa.X.Type(), tfa.Field) == "Type" && sameNodeValue(tfa.X, fa.X) {
+									isText = true
+								}
+							}
+						}
+					}
+				}
+			}
+			if isText {
+				out = append(out, ld)
+			}
+		})
+	}
+	return out
+}
+
+// formatterRawOnly: the function is reached solely on the script/style branch — every call site is on
+// that branch, or sits in a function that itself is reached solely on it (helpers of helpers).
+func (p *Prog) formatterRawOnly(f *ssa.Function, d int) bool {
+	callers := p.Callers(f)
+	if len(callers) == 0 || d > 3 {
+		return false
+	}
+	for _, cs := range callers {
+		if r, _ := p.rawTextBranch(cs.Block()); r {
+			continue
+		}
+		if cs.Parent() == f || !p.formatterRawOnly(cs.Parent(), d+1) {
+			return false
+		}
+	}
+	return true
 }
